@@ -12,7 +12,7 @@
 
    A table is a list of rows in row-id order plus the set of detached steps. *)
 From Coq Require Import List NArith Bool.
-From SV Require Import lib.Bytes model.Claims.
+From SV Require Import lib.Bytes gen.GenClaims model.Claims.
 Import ListNotations.
 Open Scope N_scope.
 
@@ -37,13 +37,29 @@ Inductive op :=
 
 Definition of_step (s : str) (r : row) : bool := str_eqb (r_step r) s.
 
+(* register_nglob's own pre-delete, translated (gen/GenClaims.v register_pre_delete; [] on the
+   unchanged tree) and Step.reset_for_rerun's DELETE (reset_deletes_rows) *)
+Definition row_superseded (cols : list N) (s pat key : str) (r : row) : bool :=
+  forallb (fun c => if c =? 1 then str_eqb (r_step r) s
+                    else if c =? 2 then str_eqb (r_pat r) pat
+                    else if c =? 3 then str_eqb (gkey (r_pat r) (r_subs r)) key
+                    else false) cols.
+
+Definition rows_pre_delete (cols : list N) (s pat key : str) (l : list row) : list row :=
+  match cols with
+  | [] => l
+  | _ => filter (fun r => negb (row_superseded cols s pat key r)) l
+  end.
+
 Definition apply_op (t : table) (o : op) : table :=
   match o with
-  | OAdd s pat subs ms => mkTable (rows t ++ [mkRow (next_id t) s pat subs ms]) (det t)
+  | OAdd s pat subs ms =>
+      let kept := rows_pre_delete register_pre_delete s pat (gkey pat subs) (rows t) in
+      mkTable (kept ++ [mkRow (max_id kept + 1) s pat subs ms]) (det t)
   | OPersist i ms =>
       mkTable (map (fun r => if r_id r =? i then mkRow (r_id r) (r_step r) (r_pat r) (r_subs r) ms else r)
                    (rows t)) (det t)
-  | OReset s => mkTable (filter (fun r => negb (of_step s r)) (rows t)) (det t)
+  | OReset s => if reset_deletes_rows then mkTable (filter (fun r => negb (of_step s r)) (rows t)) (det t) else t
   | ODetach s => mkTable (rows t) (if mem_str s (det t) then det t else s :: det t)
   | OAttach s => mkTable (rows t) (remove_str s (det t))
   | OPurge s =>
